@@ -744,3 +744,86 @@ def lit3_wal_file_names(ctx):
     ctx.check('LIT-3', 'partition|single-name-function', len(fm) == 1 and fm[0].endswith('.part'),
               'partition files are named by one function (%s) used by writer, deleter and loader '
               '(FLW-10)' % fm, 'src/' + f)
+
+
+# ------------------------------------------------------------------------------------ FLW-18 / FLW-19
+def flw18_segment_id_consistency(ctx):
+    ctx.rule('FLW-18', 'a log segment is stored under the id it carries: the id assigned from '
+                       'add_wal_segment is written into the segment before it is serialised and is '
+                       'the id formatted into the file name', floor=3)
+    P = ctx.P
+    F = P.one('Storage::persist_wal_segment')
+    du = DefUse(F)
+    cfg = CFG(F)
+    adds = calls_matching(F, lambda n: n.endswith('MetaStore::add_wal_segment'))
+    sers = calls_matching(F, lambda n: n.endswith('WalSegment::serialize'))
+    stores = [(b, t) for (b, t) in F.calls() if not b.cleanup and blobwriter_method(t.func) == 'store']
+    ctx.require(adds and sers and stores, 'FLW-18: persist_wal_segment lacks add_wal_segment/serialize/store')
+    ab = adds[0][0]
+    # the id field of the segment parameter is assigned from the add_wal_segment result
+    assigned = False
+    for bid, blk in F.blocks.items():
+        if blk.cleanup:
+            continue
+        for s in blk.stmts:
+            if s.kind == 'assign' and re.match(r'^\(_2\.0: u64\)$', s.lhs.strip()):
+                org = du.origins(base_local(s.rhs))
+                if any(c is adds[0][1] for (_b, c) in org['calls']) or base_local(s.rhs) == base_local(adds[0][1].dest):
+                    assigned = cfg.dominates(ab.id, bid) and all(cfg.dominates(bid, sb.id) for (sb, st) in sers)
+        t = blk.term
+        if t is not None and t.kind == 'call' and t is adds[0][1] and re.match(r'^\(_2\.0: u64\)$', (t.dest or '').strip()):
+            assigned = all(cfg.dominates(bid, sb.id) and bid != sb.id for (sb, st) in sers)
+    ctx.check('FLW-18', 'persist_wal_segment|id-assigned-before-serialize', assigned,
+              'segment.id = add_wal_segment() happens before the segment is serialised', where(adds[0][1]))
+    # file name uses the same id
+    fmt_ok = False
+    for (b, t) in stores:
+        org = du.origins(base_local(t.args[1]))
+        disp = [c for (_b, c) in org['calls'] if 'new_display::<u64>' in (c.func or '')]
+        for c in disp:
+            o2 = du.origins(base_local(c.args[0]))
+            if any(re.search(r'\(_2\.0: u64\)', st.rhs or '') for (_b, st) in o2['stmts']) or \
+                    any(cc is adds[0][1] for (_b, cc) in o2['calls']):
+                fmt_ok = True
+    ctx.check('FLW-18', 'persist_wal_segment|file-named-by-segment-id', fmt_ok,
+              'the file name is formatted from the id stored in the segment', where(stores[0][1]))
+    # data stored is the serialised segment
+    for (b, t) in stores:
+        org = du.origins(base_local(t.args[2]))
+        ctx.check('FLW-18', 'persist_wal_segment|stores-serialised-segment',
+                  any(c is sers[0][1] for (_b, c) in org['calls']),
+                  'the bytes stored are the serialised segment', where(t))
+
+
+def flw19_log_size_accounted(ctx):
+    ctx.rule('FLW-19', 'the bytes written to the log are added to the accounted log size under the '
+                       'ingestion lock (the size-triggered flush depends on it)', floor=1)
+    P = ctx.P
+    from .locking import lockmodel, GUARD_DEREF, WAL, ids
+    lm = lockmodel(ctx)
+    sites0 = list(P.call_sites(lambda f: norm_callee(f) == S + 'persist_wal_segment'))
+    tops = {top_function(P, b).name for b, _blk, _t in sites0}
+    for topname in sorted(tops):
+        F = P.body(topname)
+        du = lm.du(F)
+        joins = calls_matching(F, lambda n: n.endswith('std::thread::JoinHandle::join'))
+        found = False
+        site = F.blocks[0].term
+        for bid, blk in F.blocks.items():
+            if blk.cleanup:
+                continue
+            for idx, s in enumerate(blk.stmts):
+                if s.kind == 'assign' and re.match(r'^\(\*_\d+\)$', s.lhs.strip()):
+                    d = du.single_def(base_local(s.lhs))
+                    if not (d and d[1] == 'term' and GUARD_DEREF.match(d[2].func or '')):
+                        continue
+                    org = du.origins(base_local(s.rhs))
+                    from_join = any(any(c is jt for (_jb, jt) in joins) for (_b, c) in org['calls']) or \
+                        any(norm_callee(c.func) == S + 'persist_wal_segment' for (_b, c) in org['calls'])
+                    held = WAL in ids(lm.must_at(F, bid, idx))
+                    if from_join:
+                        found = held
+                        site = s
+        ctx.check('FLW-19', '%s|log-size-accounted' % topname, found,
+                  'the accounted log size grows by the number of bytes the log write reported, with '
+                  'the ingestion lock held', where(site))
